@@ -63,6 +63,21 @@ func init() {
 		DesignRef: "DESIGN.md §3 SA-5, §4 C13",
 	})
 	property(&Property{
+		ID:      "C14",
+		Rules:   []string{"LEN-trim", "LEN-json", "LEN-schema", "LEN-enum"},
+		Explain: "LEN-trim reads off each Length() method's own code (abstract interpretation with Next() replaced by a staged oracle delivering symbolic lexemes) what it holds before trimming — End of the last lexeme + k, and what the end-top marker does to it — and that the trimming loop steps back over blank bytes one at a time from data[P-1]. LEN-json / LEN-schema / LEN-enum walk the product of the scanner model extracted from Next() in length mode with the RFC 8259 reference transducer in trailing mode, for every byte value in every reachable state pair up to nesting 2, carrying as ghost state where the top-level value ended (V), where the first foreign byte is (F) and the value Length() would hold (G), as offsets from the byte just consumed. Wherever the scan can stop — the end-top marker (foreign byte directly after the value, after blanks, or one byte late), or end of input — V+1 <= G <= F must hold, so that trimming lands exactly on the length of the value; a text cut short inside a value must yield an error, and a foreign byte after a complete value must not.",
+		Assume: []string{
+			"the embedded text is plain JSON (values, arrays of scalars for enums): annotations, comments, type shortcuts and other JSight-only syntax after or inside the schema are not walked by this product (annotation and comment starters are not treated as foreign bytes)",
+			"that Check accepts the prefix with the same meaning is C05/C06 for JSON (same scanner, same events); for schemas it is not decided here",
+			"texts of blanks only are a don't-care cell; the regex notation's Len (pattern length + 2) is not covered",
+			"nesting bound 2: Length() and the end-top logic inspect only whether the event stack is empty",
+		},
+		Technique: "static analysis: abstract interpretation of go/ssa (scanner automaton extraction from Next(); symbolic summary of Length()) + product with an RFC 8259 reference transducer carrying ghost offsets",
+		Level:     "Interval check V+1 <= pre-trim length <= F at every stop of the scan, over every reachable (scanner state, reference state) pair and every byte value: a structural necessary condition of \"Len returns the length of S without trailing blanks\" for plain-JSON texts.",
+		Note:      trusted,
+		DesignRef: "DESIGN.md §3.2, §4 C14",
+	})
+	property(&Property{
 		ID:      "C17",
 		Rules:   []string{"SX-pos-json", "SX-pos-schema", "SX-pos-enum", "LB-render", "XF-render"},
 		Explain: "Over the automata extracted from the three scanners: every rejecting transition (any byte in any reachable abstract state, and end of input) produces a DocumentError on which SetIndex was called and whose index is the offset of the byte just consumed (the last byte of the input when it ends early) — the position is symbolic in the model, so this holds for all inputs reaching the state. LB-render: the renderer stays inside the file content — preparation() brings a position outside the content back inside it, every renderer method that indexes the content first returns on empty content and calls preparation() (dominance), the line helpers are only called after it, and the count given to strings.Repeat is provably non-negative. XF-render: no panic (explicit, or an index/slice expression outside the recognised guards and the reviewed in-range table, which is keyed by the operand expressions) can escape an exported function of package errors.",
@@ -242,5 +257,4 @@ func init() {
 	for _, id := range []string{} {
 		NotApplicable[id] = "engine for this property's structural clauses not finished yet (see DESIGN.md §4); not claimed until its rules run"
 	}
-	NotApplicable["C14"] = "an arithmetic relation between a returned length and acceptance of a prefix over all inputs; no clause has a structural form that is a genuine necessary condition and survives behaviour-preserving edits (DESIGN.md §4 C14)"
 }
